@@ -424,6 +424,62 @@ def check_lacon_dense(ctx, exe, cases):
                 ctx.sample({"lacon_mismatch": c["id"], "what": bad})
 
 
+
+# ---------------------------------------------------------------------------------- leaf routines of the complex estimator
+def check_complex_leaves(ctx, lib, fl, only=None):
+    """K-exact tie of the model's idamax0 to i?max1_ (the complex estimators pick the next probe with it: index of the element
+    whose REAL PART has the largest absolute value, first one on ties) and K-pred tie of ??sum1_ (sum of moduli, exact
+    rational bounds): the complex precisions have no bit-exact estimator model, so the routines it is built from are
+    compared directly.  Vectors with the maximum at every position (first, last, interior), ties, zeros, negative values."""
+    rng = ctx.rng
+    vecs = []
+    for n in list(range(1, 10)) + [12, 17, 33]:
+        for pos in sorted({0, n - 1, n // 2, rng.randrange(n)}):
+            re = [rng.choice([-1, 1]) * rng.uniform(0.0, 1.0) for _ in range(n)]
+            re[pos] = rng.choice([-1, 1]) * rng.uniform(1.5, 3.0)
+            im = [rng.choice([-1, 1]) * rng.uniform(0.0, 4.0) for _ in range(n)]      # imaginary parts may be larger: ignored by i?max1
+            vecs.append((re, im))
+        re = [rng.choice([-2.0, 2.0, 1.0, 0.0]) for _ in range(n)]                    # ties: the first maximum counts
+        vecs.append((re, [float(rng.randint(-3, 3)) for _ in range(n)]))
+    nidx = nsum = 0
+    if only is not None:
+        vecs = [(only["re"], only["im"])]
+    for p, prec in (("z", 3), ("c", 2)):
+        if only is not None and only["prec"] != p:
+            continue
+        exe = ctx.cc_harness("cleaf_" + p, ["cleaf_harness.c"], lib, fl + ["-DVP_PREC=%d" % prec])
+        vv = [([ll.to_single(x) for x in re], [ll.to_single(x) for x in im]) if p == "c" else (re, im) for re, im in vecs]
+        inp = "".join("%d %s\n" % (len(re), " ".join("%s %s" % (float(a).hex(), float(b).hex()) for a, b in zip(re, im))) for re, im in vv)
+        rc, out, err = vf.sh2([exe], inp=inp, timeout=120)
+        lines = out.strip().split("\n")
+        if rc != 0 or len(lines) != len(vv):
+            ctx.broken.append("correspondence i%smax1_: harness rc=%d %s" % (p, rc, err[-200:]))
+            continue
+        mod = ll.coq_batch(ctx, "imax1_" + p, ["LaconModel"], ["idamax0 FArith %s" % ll.coql(re) for re, im in vv])
+        u = Fr(1, 2 ** (52 if p == "z" else 23))
+        for (re, im), ln, m in zip(vv, lines, mod):
+            idx, sm = int(ln.split()[0]), float.fromhex(ln.split()[1])
+            ctx.count(("leaf", p, tuple(re), tuple(im)), nontrivial=len(re) > 1, kind="leaf-i%smax1" % p)
+            if idx != m + 1:
+                ctx.violation("i%smax1_ returns %d for the real parts %s: the element with the largest |real part| (first on ties) is "
+                              "number %d; the complex estimator would probe the wrong column" % (p, idx, re, m + 1),
+                              {"kind": "leaf", "prec": p, "re": re, "im": im}, key={"site": "i%smax1_" % p, "class": "wrong-index"})
+            else:
+                nidx += 1
+            lo = hi = Fr(0)
+            for a, b in zip(re, im):
+                q = Fr(a) ** 2 + Fr(b) ** 2
+                r = Fr(math.isqrt(int(q * (1 << 120)))) / (1 << 60)
+                lo += r; hi += r + Fr(1, 1 << 60)
+            n = len(re)
+            if not (lo * (1 - (n + 4) * u) <= Fr(sm) <= hi * (1 + (n + 4) * u)):
+                ctx.violation("%s returns %r for a vector whose moduli sum to %r" % ("dzsum1_" if p == "z" else "scsum1_", sm, float(lo)),
+                              {"kind": "leaf", "prec": p, "re": re, "im": im}, key={"site": "sum1_" + p, "class": "wrong-sum"})
+            else:
+                nsum += 1
+    ctx.cov["correspondence"]["i?max1_ = idamax0 model (K-exact)"] = nidx
+    ctx.cov["correspondence"]["??sum1_ within exact bounds"] = nsum
+
 # ---------------------------------------------------------------------------------- run
 def eval_batch(ctx, p, exe, cases, tag, ienv=None):
     """run a batch of ssvx cases; oracle for all, K-exact for d.  returns number of cases evaluated"""
@@ -524,6 +580,7 @@ def run(ctx):
                 obj = json.load(open(os.path.join(cdir, f)))
                 replay(ctx, obj, quiet=True)
     check_lacon_dense(ctx, exes["d"], lacon_dense_cases(ctx, 80 if q else 600))
+    check_complex_leaves(ctx, lib, fl)
     small_ienv = "3,2,4,200,100,-50,-50,-30"
     plan = [("d", 60 if q else 400, None), ("d", 36 if q else 240, small_ienv),
             ("z", 16 if q else 100, None), ("s", 24 if q else 160, small_ienv), ("c", 12 if q else 80, None)]
@@ -558,6 +615,10 @@ def replay(ctx, obj, quiet=False):
         if bad and not ctx.violations:
             ctx.violation("replayed case still disagrees: %s" % "; ".join(ctx.broken)[:300], rp, found_input=True)
         return 1 if bad else 0
+    if rp.get("kind") == "leaf":
+        before = len(ctx.violations) + len(ctx.broken)
+        check_complex_leaves(ctx, lib, fl, only=rp)
+        return 1 if len(ctx.violations) + len(ctx.broken) > before else 0
     if rp.get("kind") == "obligation":
         ok = ctx.coq_properties()
         if not ok:
